@@ -72,26 +72,34 @@ theorem for1_eq (seq : List Nat) (head : Nat) (st : AddSt) (op : POp) (r : G × 
     | none =>
       rcases idx_cases seq i 0 with h1 | h1 <;> rcases nodeWeight_cases g head with h3 | h3 <;>
         simp only [h1, h3, Res.ok_bind, Res.panic_bind, reduceCtorEq] at h
-      generalize seq.getD i 0 = c at *
-      generalize g.labels.getD head 0 = lh at *
-      clear h1 h3
-      cases nc <;> by_cases hc1 : c = lh <;> by_cases hc2 : c = 88 <;>
-        simp [hc1, hc2, Rs.Poa.addEdge, Rs.add, G.addEdge] at h ⊢ <;> (repeat' split at h) <;> simp_all
+      all_goals (
+        generalize seq.getD i 0 = c at *
+        generalize g.labels.getD head 0 = lh at *
+        clear h1 h3
+        have s1 : (lh = c) ↔ (c = lh) := eq_comm
+        have s2 : (88 = c) ↔ (c = 88) := eq_comm
+        cases nc <;> by_cases hc1 : c = lh <;> by_cases hc2 : c = 88 <;>
+          simp [s1, s2, hc1, hc2, Rs.Poa.addEdge, Rs.add, G.addEdge] at h ⊢ <;> (repeat' split at h) <;> simp_all)
     | some pq =>
       obtain ⟨q0, p⟩ := pq
       dsimp only at h ⊢
       rcases idx_cases seq i 0 with h1 | h1 <;> rcases nodeWeight_cases g p with h3 | h3 <;>
         simp only [h1, h3, Res.ok_bind, Res.panic_bind, reduceCtorEq] at h
-      generalize seq.getD i 0 = c at *
-      generalize g.labels.getD p 0 = lh at *
-      clear h1 h3
-      cases hf : findEdge g.es prev p with
-      | none =>
-        by_cases hc1 : c = lh <;> by_cases hc2 : c = 88 <;> by_cases hp1 : prev = head <;> by_cases hp2 : prev = p <;>
-          simp [hc1, hc2, hf, hp1, hp2, Rs.Poa.addEdge, Rs.add, G.addEdge] at h ⊢ <;> (repeat' split at h) <;> simp_all
-      | some k =>
-        rcases edgeWeightAdd_cases g k with h4 | h4 <;> by_cases hc1 : c = lh <;> by_cases hc2 : c = 88 <;>
-          simp [hc1, hc2, hf, h4, Rs.Poa.addEdge, Rs.add, G.addEdge] at h ⊢ <;> (repeat' split at h) <;> simp_all
+      all_goals (
+        generalize seq.getD i 0 = c at *
+        generalize g.labels.getD p 0 = lh at *
+        clear h1 h3
+        have s1 : (lh = c) ↔ (c = lh) := eq_comm
+        have s2 : (88 = c) ↔ (c = 88) := eq_comm
+        have s3 : (head = prev) ↔ (prev = head) := eq_comm
+        have s4 : (p = prev) ↔ (prev = p) := eq_comm
+        cases hf : findEdge g.es prev p with
+        | none =>
+          by_cases hc1 : c = lh <;> by_cases hc2 : c = 88 <;> by_cases hp1 : prev = head <;> by_cases hp2 : prev = p <;>
+            simp [s1, s2, s3, s4, hc1, hc2, hf, hp1, hp2, Rs.Poa.addEdge, Rs.add, G.addEdge] at h ⊢ <;> (repeat' split at h) <;> simp_all
+        | some k =>
+          rcases edgeWeightAdd_cases g k with h4 | h4 <;> by_cases hc1 : c = lh <;> by_cases hc2 : c = 88 <;>
+            simp [s1, s2, s3, s4, hc1, hc2, hf, h4, Rs.Poa.addEdge, Rs.add, G.addEdge] at h ⊢ <;> (repeat' split at h) <;> simp_all)
   | d pq => simp at h; simp [← h]
   | i p =>
     cases p <;> dsimp only at h ⊢ <;>
